@@ -102,7 +102,7 @@ Unkeep(res) == [k \in 1..Len(res) |-> [res[k] EXCEPT !.kept = FALSE]]
 (* A program op is one of
      [op |-> "create", init]   [op |-> "create2", salt, init]
      [op |-> "call", to, prog]            to: an address, or <<"last">> = the contract created last in this frame
-     [op |-> "destroy", ben]              ben: <<"caller">> or a raw f4 address (auto-created if new)
+     [op |-> "destroy", ben]              ben: <<"caller">> or an f4 address (a placeholder is auto-created if new)
      [op |-> "revert"]
    RunOps returns [ok, S, res]; ok = FALSE: the frame reverted, its effects are dropped by the caller. *)
 RECURSIVE RunOps(_, _, _, _, _)
@@ -131,7 +131,7 @@ RunOps(s, self, prog, i, lastC) ==
            IN  [ok |-> rest.ok, S |-> rest.S,
                 res |-> (IF rest.ok THEN rc.res ELSE Unkeep(rc.res)) \o rest.res]
       [] o.op = "destroy" ->
-           LET s1 == IF o.ben[1] = "raw" THEN AutoCreate(s, o.ben) ELSE s
+           LET s1 == IF o.ben = <<"caller">> THEN s ELSE AutoCreate(s, o.ben)
            IN  [ok |-> TRUE, S |-> [s1 EXCEPT !.act[self].tomb = 1], res |-> <<>>]
       [] o.op = "revert" -> [ok |-> FALSE, S |-> s, res |-> <<>>]
 
